@@ -24,7 +24,10 @@ TMPL = {
          '<block wx:if="{{{{upsilon}}}}"><u>{{{{phi}}}}</u></block><block wx:else>{{{{chi}}}}{{{{n.f(psi)}}}}</block>',
     # no script module at all: whether the script runtime is emitted must not depend on which file came last
     "z": '<v id="{{{{aa}}}}" class="{{{{bb}}}}">{{{{cc}}}}</v><block wx:for="{{{{dd}}}}"><w>{{{{item}}}}{{{{ee}}}}</w></block>'
-         '<template name="u{name}"><v a="{{{{ff}}}}"/></template><template is="u{name}" data="{{{{ff: gg}}}}"/>',
+         '<template name="u{name}"><v a="{{{{ff}}}}"/></template><template is="u{name}" data="{{{{ff: gg}}}}"/>'
+         # several slot values on the children of one parent: their order in the emitted declarations must be fixed
+         '<comp><view slot:item slot:index slot:first slot:last class="{{{{first ? hh : ii}}}}">{{{{index}}}}: {{{{item.n}}}} {{{{last ? jj : kk}}}}</view>'
+         '<text slot:alpha slot:beta slot:gamma="g2">{{{{alpha}}}}{{{{beta}}}}{{{{g2}}}}</text></comp>',
 }
 PATHS = {"a": "p/a", "b": "p/b", "c": "q/c"}
 SCRIPT = {"x": "exports.f = function (v) { return v }", "y": "module.exports = { f: function (v) { return [v] } }"}
